@@ -410,8 +410,17 @@ func (g G) planFlows(prop string) *Plan {
 	if prop == "C03" {
 		o.faultPcts = []int{0, 0, 0, 12}
 	}
+	// a fifth of the worlds: signing requirements of every kind (requests are then signed where needed), applications that move
+	// to another entity more often
+	if g.chance("flows.signReq", 20) {
+		o.world.signReqVariety = true
+		o.wRereg = 4
+	}
 	if prop == "C04" {
 		o.wAttrQ, o.wMeta = 14, 10
+		o.wTear = 2 // half-finished rotation of the response signing key record
+		// consumer endpoints over the whole binding alphabet (most are refused at the SSO endpoint; what is accepted must be signed)
+		o.world.acsVariety = g.chance("flows.acsVariety", 20)
 		o.faultPcts = []int{0, 0, 10, 25} // a failing key read must never let an unsigned Success assertion out
 	}
 	p := g.planMix(prop, o)
